@@ -179,12 +179,7 @@ func (al *agentListener) serv(c *conn2) {
 
 		switch v := o.(type) {
 		case *Hello:
-			ac := &agentConnection{
-				Laddr: v.Laddr,
-				Raddr: v.Raddr,
-				in:    make(chan []byte),
-				out:   out,
-			}
+			ac := newAgentConnection(v.Laddr, v.Raddr, out)
 
 			conns.Add(ac)
 
